@@ -26,8 +26,8 @@ EXPLANATION = (
     "zero before dividing; (T13-PRIV) the tuple wrappers keep their storage private so callers cannot bypass the length check."
 )
 NOT_DECIDED = (
-    "numeric clauses: that min/default/max map to exactly -1/0/+1, accuracy to one 2.14 unit, monotonicity, the avar segment "
-    "interpolation arithmetic and 16.16 rounding are value properties and are not decided."
+    "default_normalize is decided in exact rational arithmetic (T13-NORM: min/default/max map to -1/0/+1, the piecewise formula, both clamps); what "
+    "remains undecided: accuracy to one 2.14 unit under 16.16 rounding, the avar segment interpolation arithmetic, monotonicity under rounding."
 )
 ASSUMPTIONS = ["Ord::clamp / Ord::min / Ord::max on Fixed (derived Ord over i32) behave as documented"]
 
